@@ -227,6 +227,14 @@ func checkC11(c *core.Ctx) {
 			for _, br := range broken {
 				worlds = append(worlds, c11World{g, br})
 			}
+			// non-canonical spellings of include targets (cache keys vs InvalidateFile argument)
+			if g.nedges() >= 1 && (g.nedges() <= 2 || c.Thorough()) {
+				for _, form := range []string{"abs-dot", "mixed"} {
+					gf := g
+					gf.Form = form
+					worlds = append(worlds, c11World{gf, 0})
+				}
+			}
 		}
 	}
 	// named 4-file shapes: chain, diamond, cycle through depth 2, star
@@ -248,7 +256,7 @@ func checkC11(c *core.Ctx) {
 		}
 		worlds = append(worlds, c11World{g, 0}, c11World{g, 4})
 	}
-	c.Bound("worlds", fmt.Sprintf("%d include graphs (3 files, <= %d edges, plus chain4/diamond/cycle/star on 4 files) x which file has a syntax error %v (1-based, 0 none; the edit removes it), 2 content variants per file", len(worlds), maxEdges, broken))
+	c.Bound("worlds", fmt.Sprintf("%d include graphs (3 files, <= %d edges, plus chain4/diamond/cycle/star on 4 files) x which file has a syntax error %v (1-based, 0 none; the edit removes it), graphs with few edges also with include targets spelled /dir/./x by all or by odd files, 2 content variants per file", len(worlds), maxEdges, broken))
 	c.Bound("history depth", fmt.Sprint(depth))
 	sampled := 0
 	for _, w := range worlds {
